@@ -1,9 +1,9 @@
-(* C10 — Bucket faults and malformed archives are contained: error, no crash, no lie (tile requests).
+(* C10 — Bucket faults and malformed archives are contained: error, no crash, no lie (tile, metadata and TileJSON requests).
    The LTS of Model/Server.v includes, at every bucket call, the failing outcomes: a fetch whose call fails with any
    error class or whose bytes do not parse (SFetchFail), a tile read that fails (STileFail). *)
 From Coq Require Import NArith List.
 Import ListNotations.
-From PM Require Import Model.Server Proofs.Server Proofs.ServerExec.
+From PM Require Import Model.Server Proofs.Server Proofs.ServerExec Proofs.ServerCoalesce.
 Open Scope N_scope.
 
 Section C10.
@@ -27,7 +27,16 @@ Qed.
    data of a version; a failed result carries ok = false and the loop only inserts ok results *)
 Theorem C10_failures_not_cached : forall s k cv, reach s -> In (k, cv) (cache s) -> cv_ok cv = true -> wk (hist s) k cv.
 Proof. intros s k cv R Hin _. eapply (I_cache s (reach_inv root_off_nz leaf_base_nz s R)); eauto. Qed.
+(* ... and a failed result never gets there at all: every cached value is an ok value *)
+Theorem C10_only_ok_cached : forall s k cv, reach s -> In (k, cv) (cache s) -> cv_ok cv = true.
+Proof. intros s k cv R Hin. exact (E12 s (reach_co root_off_nz s R) k cv Hin). Qed.
+(* no request is left waiting on nothing: a key with registered waiters is being fetched right now or its response (data or failure) is
+   queued for the loop, so the waiters are answered by the next loop message for that key whatever the outcome of the bucket call *)
+Theorem C10_waiters_served : forall s k, reach s -> In k (map fst (inflight s)) -> In k (fetches s) \/ In k (map fst (respq s)).
+Proof. intros s k R Hin. exact (E11 s (reach_co root_off_nz s R) k Hin). Qed.
 End C10.
 
 Print Assumptions C10_no_lie.
 Print Assumptions C10_failures_not_cached.
+Print Assumptions C10_only_ok_cached.
+Print Assumptions C10_waiters_served.
